@@ -88,8 +88,19 @@ def gen_case(ctx, rng):
     else:
         p = {"x1": dq(0, 6), "x2": dq(0, 6), "y1": dq(0, 6), "y2": dq(0, 6)}
         loc = None
+    rank_dtype = rng.choice(["uint16", "uint32", "uint64", "int32", "uint8", "int16"]) if rng.random() < 0.35 else None
+    int_params = rng.random() < (0.75 if (rank_dtype and data["kind"] == "grid") else 0.25)
+    if int_params:
+        for k_, v_ in list(p.items()):
+            if isinstance(v_, float) and k_ not in ("angle", "a"):
+                p[k_] = float(max(1, round(v_))) if k_ in ("radius", "width", "height") else float(round(v_))
+            elif k_ == "xy_coords":
+                p[k_] = [(float(round(a_)), float(round(b_))) for a_, b_ in v_]
     return {"shape": kind, "params": p, "loc": loc, "data": data, "ranking": ranking, "_np_scalars": rng.random() < 0.25,
             "_other_ctor_data": rng.random() < 0.35,
+            "_int_params": int_params,
+            # the ranked list as other code hands it over: sensor ids are often kept in narrow / unsigned integer arrays
+            "_rank_dtype": rank_dtype,
             "_col_order": (rng.sample(["x", "y", "z", "f"], 4) if rng.random() < 0.5 else None)}
 
 
@@ -131,6 +142,18 @@ def run_real(case):
         p["xy_coords"] = tuple(tuple(v) for v in p["xy_coords"])
     elif cont == "ndarray":
         p["xy_coords"] = np.array([list(v) for v in p["xy_coords"]], dtype=float)
+    # whole-number parameters written as Python ints (Circle(3, 4, 2) is how people type them): same numbers, another type –
+    # arithmetic between them and integer-typed coordinates must still be the arithmetic of the numbers
+    if case.get("_int_params"):
+        def as_int(v):
+            if isinstance(v, float) and v.is_integer():
+                return int(v)
+            if isinstance(v, (list, tuple)):
+                return type(v)(as_int(w) for w in v)
+            return v
+        p = {k: (as_int(v) if not isinstance(v, np.ndarray) and k != "angle" else v) for k, v in p.items()}
+        if isinstance(p.get("xy_coords"), np.ndarray) and np.all(p["xy_coords"] == np.round(p["xy_coords"])):
+            p["xy_coords"] = p["xy_coords"].astype(int)
     # scalar parameters as numpy scalars now and then (same numbers)
     if case.get("_np_scalars"):
         p = {k: (np.float64(v) if isinstance(v, float) else (np.int64(v) if isinstance(v, int) and not isinstance(v, bool) else v))
@@ -153,7 +176,11 @@ def run_real(case):
             other = np.flipud(np.vstack([data, data])) + 1.0
         kw = dict(kw, data=other)
     obj = cls(**p, **kw)
-    idx, rank = obj.get_constraint_indices(np.array(case["ranking"]), data)
+    rk = np.array(case["ranking"])
+    dt = case.get("_rank_dtype")
+    if dt and (not len(rk) or int(rk.max()) <= np.iinfo(dt).max):
+        rk = rk.astype(dt)
+    idx, rank = obj.get_constraint_indices(rk, data)
     return [int(i) for i in idx]
 
 
